@@ -7,6 +7,9 @@ use tvh_common::*;
 const HALF: i64 = 777001;
 const PINF: i64 = 777002;
 const NINF: i64 = 777003;
+/// 2^53 + 2^29 + 1 (Casts.tla BIG53): `as f32` directly and via f64 differ by one f32 ulp
+const BIG53: i64 = 777004;
+const BIG53_VALUE: i64 = 9_007_199_791_611_905;
 
 #[derive(Debug, Clone, PartialEq)]
 enum Out {
@@ -29,6 +32,7 @@ macro_rules! float_ty {
     ($($t:ty),*) => {$(
         impl Mk for $t {
             fn mk(v: i64) -> Option<Self> {
+                if v == BIG53 { return None; }
                 Some(match v { NULL => <$t>::NAN, HALF => 1.5, PINF => <$t>::INFINITY, NINF => <$t>::NEG_INFINITY, x => x as $t })
             }
         }
@@ -43,6 +47,7 @@ macro_rules! int_ty {
         impl Mk for $t {
             fn mk(v: i64) -> Option<Self> {
                 if v == NULL || v == HALF || v == PINF || v == NINF { return None; }
+                let v = if v == BIG53 { BIG53_VALUE } else { v };
                 <$t>::try_from(v).ok()
             }
         }
@@ -97,6 +102,16 @@ impl Mk for DateTime<unit::Nanosecond> {
         Some(if v == NULL { DateTime::nat() } else { DateTime::new(v) })
     }
 }
+macro_rules! mk_dt {
+    ($($U:ty),*) => {$(
+        impl Mk for DateTime<$U> {
+            fn mk(v: i64) -> Option<Self> {
+                Some(if v == NULL { DateTime::nat() } else { DateTime::new(v) })
+            }
+        }
+    )*};
+}
+mk_dt!(unit::Second, unit::Millisecond, unit::Microsecond);
 impl ObsOut for DateTime<unit::Nanosecond> {
     fn out(&self) -> Out {
         if self.is_nat() { Out::Null } else { Out::Other }
@@ -125,6 +140,22 @@ impl ObsOut for Time {
 
 type CastFn = fn(i64) -> Option<Result<Out, String>>;
 
+/// the conversion helpers of the Number trait (f32(), f64(), i32(), i64(), usize()): the same
+/// expectation as the corresponding Cast
+macro_rules! num_helper {
+    ($name:ident, $m:ident) => {
+        fn $name<F: Mk + Number + 'static>(v: i64) -> Option<Result<Out, String>> {
+            let x = F::mk(v)?;
+            Some(catch(move || Number::$m(x).out()))
+        }
+    };
+}
+num_helper!(num_f32, f32);
+num_helper!(num_f64, f64);
+num_helper!(num_i32, i32);
+num_helper!(num_i64, i64);
+num_helper!(num_usize, usize);
+
 fn do_cast<F: Mk + Cast<T> + 'static, T: ObsOut + 'static>(v: i64) -> Option<Result<Out, String>> {
     let x = F::mk(v)?;
     Some(catch(move || Cast::<T>::cast(x).out()))
@@ -137,14 +168,17 @@ fn lang_cast(v: i64, from: &str, to: &str) -> Option<f64> {
         PINF => f64::INFINITY,
         NINF => f64::NEG_INFINITY,
         NULL => f64::NAN,
+        BIG53 => BIG53_VALUE as f64,
         n => n as f64,
     };
+    let v = if v == BIG53 { BIG53_VALUE } else { v };
     // an integer SOURCE wraps, a float source truncates and saturates
     let from = from.strip_prefix("opt_").unwrap_or(from);
     let is_int_class = !matches!(v, HALF | PINF | NINF | NULL) && !matches!(from, "f32" | "f64");
     let to = to.strip_prefix("opt_").unwrap_or(to);
     Some(match (to, is_int_class) {
-        ("f32", _) => x as f32 as f64,
+        ("f32", true) => v as f32 as f64,      // one rounding, not two
+        ("f32", false) => x as f32 as f64,
         ("f64", _) => x,
         ("i32", true) => v as i32 as f64,
         ("i32", false) => x as i32 as f64,
@@ -206,6 +240,24 @@ fn build_table() -> Vec<(&'static str, &'static str, CastFn)> {
          ("opt_f32", Option<f32>), ("opt_f64", Option<f64>), ("opt_i32", Option<i32>), ("opt_i64", Option<i64>),
          ("opt_isize", Option<isize>), ("opt_u8", Option<u8>), ("opt_u64", Option<u64>), ("opt_usize", Option<usize>)]
     ));
+    macro_rules! helpers {
+        ($( ($ft:literal, $F:ty) ),*) => {$(
+            t.push(($ft, "f32", num_f32::<$F> as CastFn));
+            t.push(($ft, "f64", num_f64::<$F> as CastFn));
+            t.push(($ft, "i32", num_i32::<$F> as CastFn));
+            t.push(($ft, "i64", num_i64::<$F> as CastFn));
+            t.push(($ft, "usize", num_usize::<$F> as CastFn));
+        )*};
+    }
+    helpers!(("f32", f32), ("f64", f64), ("i32", i32), ("i64", i64), ("u64", u64), ("usize", usize));
+    // the date-time tag stands for every unit: the other three resolutions as further rows
+    t.extend(table!(
+        [("datetime", DateTime<unit::Second>), ("datetime", DateTime<unit::Millisecond>), ("datetime", DateTime<unit::Microsecond>)]
+        x
+        [("f32", f32), ("f64", f64), ("i32", i32), ("i64", i64), ("isize", isize), ("u8", u8), ("u64", u64), ("usize", usize),
+         ("opt_f32", Option<f32>), ("opt_f64", Option<f64>), ("opt_i32", Option<i32>), ("opt_i64", Option<i64>),
+         ("opt_isize", Option<isize>), ("opt_u8", Option<u8>), ("opt_u64", Option<u64>), ("opt_usize", Option<usize>)]
+    ));
     t.push(("timedelta", "string", do_cast::<TimeDelta, String> as CastFn));
     t
 }
@@ -216,6 +268,7 @@ fn vname(v: i64) -> String {
         HALF => "1.5".into(),
         PINF => "+inf".into(),
         NINF => "-inf".into(),
+        BIG53 => "2^53+2^29+1".into(),
         x => x.to_string(),
     }
 }
@@ -224,55 +277,63 @@ pub fn replay(args: &Args) {
     let cases = read_ndjson(args.req("in"));
     let mut rep = Report::new(args.get("prop").unwrap_or("C15"), args.req("out"));
     let table = build_table();
+    let only_time = args.flag("only-time");
     let mut lang_checked = 0u64;
     let mut missing = std::collections::BTreeSet::new();
     for v in &cases {
         match get_str(v, "op") {
             "cast" => {
                 let (from, to, val) = (get_str(v, "from"), get_str(v, "to"), get_i64(v, "v"));
-                let Some((_, _, f)) = table.iter().find(|(a, b, _)| *a == from && *b == to) else {
+                let is_time = |t: &str| matches!(t, "datetime" | "timedelta" | "time");
+                if only_time && !is_time(from) && !is_time(to) {
+                    continue;
+                }
+                let rows: Vec<&CastFn> = table.iter().filter(|(a, b, _)| *a == from && *b == to).map(|(_, _, f)| f).collect();
+                if rows.is_empty() {
                     missing.insert(format!("{from}->{to}"));
                     continue;
-                };
-                let Some(r) = f(val) else { continue };
-                rep.cases += 1;
-                if rep.cases % 300 == 1 {
-                    rep.sample(v.clone());
                 }
-                rep.cells += 1;
-                let exp = v["exp"].as_array().unwrap();
-                let kind = exp[0].as_str().unwrap();
-                let key = format!("cast|{from}->{to}|v={}", vname(val));
-                let site = format!("cast|{from}->{to}|{}", if val == NULL { "null" } else { "value" });
-                let verdict: Result<(), String> = match (kind, &r) {
-                    ("any", _) => Ok(()),
-                    ("null", Ok(Out::Null)) => Ok(()),
-                    ("null", got) => Err(format!("a null became {got:?}")),
-                    ("nonnull", Ok(Out::Null)) => Err("a non-null value became null".into()),
-                    ("nonnull", Ok(_)) => Ok(()),
-                    ("nonnull", Err(p)) => Err(format!("panicked: {p}")),
-                    ("panic", Err(_)) => Ok(()),
-                    // a defined value where a clean panic would do is fine as long as nullness is kept
-                    ("panic", Ok(_)) => Ok(()),
-                    ("val", Ok(Out::Val(g))) => {
-                        let want = exp[1].as_i64().unwrap() as f64 / exp[2].as_i64().unwrap() as f64;
-                        if *g == want { Ok(()) } else { Err(format!("got {g}, want {want}")) }
-                    },
-                    ("val", got) => Err(format!("got {got:?}, want the number {}/{}", exp[1], exp[2])),
-                    ("lang", Ok(Out::Val(g))) => {
-                        lang_checked += 1;
-                        match lang_cast(val, from, to) {
-                            Some(w) if w == *g => Ok(()),
-                            Some(w) => Err(format!("got {g}, the language's conversion gives {w}")),
-                            None => Ok(()),
-                        }
-                    },
-                    ("lang", got) => Err(format!("got {got:?} where the language's conversion gives a number")),
-                    (k, got) => Err(format!("unexpected expectation {k} / {got:?}")),
-                };
-                match verdict {
-                    Ok(()) => rep.ok("cast", 0.0),
-                    Err(d) => rep.mismatch("cast", &site, &key, &format!("{from}->{to}"), &d, v),
+                for (row, f) in rows.into_iter().enumerate() {
+                    let Some(r) = f(val) else { continue };
+                    rep.cases += 1;
+                    if rep.cases % 300 == 1 {
+                        rep.sample(v.clone());
+                    }
+                    rep.cells += 1;
+                    let exp = v["exp"].as_array().unwrap();
+                    let kind = exp[0].as_str().unwrap();
+                    let key = format!("cast|{from}->{to}{}|v={}", if row > 0 { format!("#{row}") } else { String::new() }, vname(val));
+                    let site = format!("cast|{from}->{to}|{}", if val == NULL { "null" } else { "value" });
+                    let verdict: Result<(), String> = match (kind, &r) {
+                        ("any", _) => Ok(()),
+                        ("null", Ok(Out::Null)) => Ok(()),
+                        ("null", got) => Err(format!("a null became {got:?}")),
+                        ("nonnull", Ok(Out::Null)) => Err("a non-null value became null".into()),
+                        ("nonnull", Ok(_)) => Ok(()),
+                        ("nonnull", Err(p)) => Err(format!("panicked: {p}")),
+                        ("panic", Err(_)) => Ok(()),
+                        // a defined value where a clean panic would do is fine as long as nullness is kept
+                        ("panic", Ok(_)) => Ok(()),
+                        ("val", Ok(Out::Val(g))) => {
+                            let want = exp[1].as_i64().unwrap() as f64 / exp[2].as_i64().unwrap() as f64;
+                            if *g == want { Ok(()) } else { Err(format!("got {g}, want {want}")) }
+                        },
+                        ("val", got) => Err(format!("got {got:?}, want the number {}/{}", exp[1], exp[2])),
+                        ("lang", Ok(Out::Val(g))) => {
+                            lang_checked += 1;
+                            match lang_cast(val, from, to) {
+                                Some(w) if w == *g => Ok(()),
+                                Some(w) => Err(format!("got {g}, the language's conversion gives {w}")),
+                                None => Ok(()),
+                            }
+                        },
+                        ("lang", got) => Err(format!("got {got:?} where the language's conversion gives a number")),
+                        (k, got) => Err(format!("unexpected expectation {k} / {got:?}")),
+                    };
+                    match verdict {
+                        Ok(()) => rep.ok("cast", 0.0),
+                        Err(d) => rep.mismatch("cast", &site, &key, &format!("{from}->{to}"), &d, v),
+                    }
                 }
             },
             "cmp" => {
